@@ -177,7 +177,7 @@ def check_case(case):
 
 def shipped_files():
     out = []
-    for base in ("/repo/src/cobra/data", "/repo/tests/data"):
+    for base in (str(common.REPO / "src/cobra/data"), str(common.REPO / "tests/data")):
         for p in sorted(Path(base).glob("*")):
             n = p.name
             if n.endswith((".xml", ".xml.gz", ".xml.bz2", ".sbml")):
